@@ -34,6 +34,7 @@ func init() {
 			c08Deadline(r)
 			customConfigOverrides(r)
 			c09SubMillisecondKept(r)
+			c13TimerRearmed(r)
 			singleLockRegion(r)
 			lockPairing(r)
 			c07LockSections(r)
